@@ -120,7 +120,7 @@ mutual
             · rename_i r3 h3
               injection h with h
               subst h
-              exact HasItem.inl _ (HasItem.inl _ (hd _ _))
+              exact HasItem.inl _ (HasItem.inl _ (HasItem.inl _ (hd _ _)))
   theorem walkSelections_hasItems (s : SV) (d : QueryDoc) (cur : Option OperationDef) (J : Jump) :
       ∀ (xs : Selections) (parent : Option Definition) (ws : WS) r, walkSelections s d cur J parent xs ws = some r →
         ∀ i, InSels xs i → HasItem s r.2 i
